@@ -137,6 +137,7 @@ class RemoteWorker(Worker, metaclass=RemoteWorkerMeta):
         self._payload = None
         self._context = context
         self._remote_dead = False
+        self._ctrl_lock = threading.RLock() # parent side: the control connection carries one request and its answer at a time
         self._reset_sigterm_hnd = False # reset SIGTERM handler in the child process
         self._main_path = main_path
         if context is not None:
@@ -194,32 +195,35 @@ class RemoteWorker(Worker, metaclass=RemoteWorkerMeta):
             if self._child.is_alive():
                 return True
 
-            if not self._remote_dead:
-                try:
-                    send_msg(self._ctrl_sock, ('alive', tuple()), comment='ctrl: alive')
-                    result = recv_msg(self._ctrl_sock, comment='ctrl: alive result')
-                except ConnectionClosedError:
-                    # connection closed, nothing more to do than assume the child is dead
-                    # at the remote side
-                    logger.details('Connection to the remote control thread is closed - assuming child dead')
-                    self._remote_dead = True
-                    result = False
+            # another thread of the parent can be talking to the remote control thread right now (e.g. wait() called while
+            # a consumer of partial results checks is_alive()), the two conversations must not get mixed up
+            with self._ctrl_lock:
+                if not self._remote_dead:
+                    try:
+                        send_msg(self._ctrl_sock, ('alive', tuple()), comment='ctrl: alive')
+                        result = recv_msg(self._ctrl_sock, comment='ctrl: alive result')
+                    except ConnectionClosedError:
+                        # connection closed, nothing more to do than assume the child is dead
+                        # at the remote side
+                        logger.details('Connection to the remote control thread is closed - assuming child dead')
+                        self._remote_dead = True
+                        result = False
 
-                assert isinstance(result, bool), result
+                    assert isinstance(result, bool), result
 
-                if not result:
-                    if not self._remote_dead:
-                        send_msg(self._ctrl_sock, None, comment='ctrl: release')
-                    logger.details('Closing frontend-side control socket')
-                    self._ctrl_sock.close()
-                    self._remote_dead = True
-                    self._dead = True
+                    if not result:
+                        if not self._remote_dead:
+                            send_msg(self._ctrl_sock, None, comment='ctrl: release')
+                        logger.details('Closing frontend-side control socket')
+                        self._ctrl_sock.close()
+                        self._remote_dead = True
+                        self._dead = True
+                    else:
+                        return True
                 else:
-                    return True
-            else:
-                # both local thread and remote process are dead
-                # cache result
-                self._dead = True
+                    # both local thread and remote process are dead
+                    # cache result
+                    self._dead = True
 
             return False
 
@@ -248,28 +252,29 @@ class RemoteWorker(Worker, metaclass=RemoteWorkerMeta):
             if not self._started or self._dead:
                 return True
 
-            if not self._remote_dead:
-                logger.debug('Sending a wait message with args: {}', (remote_timeout, ))
-                try:
-                    send_msg(self._ctrl_sock, ('wait', (remote_timeout, )), comment='ctrl: wait')
-                    result = recv_msg(self._ctrl_sock, comment='ctrl: wait result')
-                    logger.debug('Remote wait result: {}', result)
-                except ConnectionClosedError:
-                    # connection closed, nothing more to do than assume the child is dead
-                    # at the remote side
-                    logger.details('Connection to the remote control thread is closed - assuming child dead')
-                    self._remote_dead = True
-                    result = True
-
-                assert isinstance(result, bool), result
-                if not result:
-                    return False
-
+            with self._ctrl_lock:
                 if not self._remote_dead:
-                    send_msg(self._ctrl_sock, None, 'ctrl: release')
-                logger.debug('Closing frontend-side control socket')
-                self._ctrl_sock.close()
-                self._remote_dead = True
+                    logger.debug('Sending a wait message with args: {}', (remote_timeout, ))
+                    try:
+                        send_msg(self._ctrl_sock, ('wait', (remote_timeout, )), comment='ctrl: wait')
+                        result = recv_msg(self._ctrl_sock, comment='ctrl: wait result')
+                        logger.debug('Remote wait result: {}', result)
+                    except ConnectionClosedError:
+                        # connection closed, nothing more to do than assume the child is dead
+                        # at the remote side
+                        logger.details('Connection to the remote control thread is closed - assuming child dead')
+                        self._remote_dead = True
+                        result = True
+
+                    assert isinstance(result, bool), result
+                    if not result:
+                        return False
+
+                    if not self._remote_dead:
+                        send_msg(self._ctrl_sock, None, 'ctrl: release')
+                    logger.debug('Closing frontend-side control socket')
+                    self._ctrl_sock.close()
+                    self._remote_dead = True
 
             self._child.join(timeout)
             alive = self._child.is_alive()
@@ -328,32 +333,33 @@ class RemoteWorker(Worker, metaclass=RemoteWorkerMeta):
             if not self._started or self._dead:
                 return True
 
-            if not self._remote_dead:
-                logger.debug('Sending a terminate message with args: {}', (remote_timeout, force))
-                try:
-                    send_msg(self._ctrl_sock, ('terminate', (remote_timeout, force)), comment='terminate')
-                    #self._socket.shutdown(socket.SHUT_WR)
-                    result = recv_msg(self._ctrl_sock, comment='terminate result')
-                    logger.debug('Remote terminate result: {}', result)
-                except ConnectionClosedError:
-                    # connection closed, nothing more to do than assume the child is dead
-                    # at the remote side
-                    logger.debug('Connection to the remote control thread is closed - assuming child dead')
-                    self._remote_dead = True
-                    result = True
-
-                #if not self._remote_dead:
-                #    self._release_child()
-
-                assert isinstance(result, bool), result
-                if not result:
-                    return False
-
+            with self._ctrl_lock:
                 if not self._remote_dead:
-                    send_msg(self._ctrl_sock, None, comment='ctrl: release')
-                logger.debug('Closing frontend-side control socket')
-                self._ctrl_sock.close()
-                self._remote_dead = True
+                    logger.debug('Sending a terminate message with args: {}', (remote_timeout, force))
+                    try:
+                        send_msg(self._ctrl_sock, ('terminate', (remote_timeout, force)), comment='terminate')
+                        #self._socket.shutdown(socket.SHUT_WR)
+                        result = recv_msg(self._ctrl_sock, comment='terminate result')
+                        logger.debug('Remote terminate result: {}', result)
+                    except ConnectionClosedError:
+                        # connection closed, nothing more to do than assume the child is dead
+                        # at the remote side
+                        logger.debug('Connection to the remote control thread is closed - assuming child dead')
+                        self._remote_dead = True
+                        result = True
+
+                    #if not self._remote_dead:
+                    #    self._release_child()
+
+                    assert isinstance(result, bool), result
+                    if not result:
+                        return False
+
+                    if not self._remote_dead:
+                        send_msg(self._ctrl_sock, None, comment='ctrl: release')
+                    logger.debug('Closing frontend-side control socket')
+                    self._ctrl_sock.close()
+                    self._remote_dead = True
 
             self._child.join(timeout)
             if self._child.is_alive() and force:
@@ -485,6 +491,7 @@ class RemoteWorker(Worker, metaclass=RemoteWorkerMeta):
             state['_child'] = None
             state['_socket'] = None # _socket will be injected by the server on the remote side
             state['_startup_sync'] = None
+            state['_ctrl_lock'] = None
             if self._context is None:
                 state['_payload'] = remote_pickle.dumps((self._target, self._args, self._kwargs))
             del state['_target']
